@@ -286,6 +286,10 @@ def T13():
                 "CONFIG_ODUP CONFIG_NB",
                 "CONFIG_ODUP CONFIG_NB2",
                 "CONFIG_OINV2 !CONFIG_NB2",
+                "CONFIG_OFLIP CONFIG_NB",
+                "CONFIG_OFLIP !CONFIG_NB",
+                "CONFIG_OFLIP2 !CONFIG_NB2",
+                "CONFIG_OFLIP2 CONFIG_NB2",
             ],
         ],
     )
@@ -326,6 +330,10 @@ def T14():
             Cfg("D_C6", B, "c6", depends=["IDF_TARGET_ESP32C6 || USR"]),
             Cfg("FORCER", B, "forcer", depends=["USR"], selects=[("FORCED", None)]),
             Cfg("FORCED", B, "forced", depends=["!IDF_TARGET_ESP32C6"]),
+            Menu("c6 extras", visible_if=["IDF_TARGET_ESP32C6"], children=[Cfg("SHARED", B, "shared (c6 menu)"), Cfg("ONLY_C6", B, "only c6")]),
+            Menu("common", children=[Cfg("SHARED", B, "shared (common menu)", extra=["# ignore: multiple-definition"]), Cfg("USES_SHARED", B, "uses shared", depends=["SHARED"])]),
+            Menu("common2", children=[Cfg("SHARED2", B, "shared2 (common menu)"), Cfg("USES_SHARED2", I, "uses shared2", depends=["SHARED2"], defaults=[("1", None)])]),
+            Menu("esp32 extras", visible_if=["IDF_TARGET_ESP32"], children=[Cfg("SHARED2", B, "shared2 (esp32 menu)", extra=["# ignore: multiple-definition"])]),
         ],
     )
 
